@@ -31,6 +31,16 @@ CHECKS = {
              'path is a simple cycle of the graph, reported at its first job).',
         note='exhaustive: 3 jobs (ordered lists, dangling, duplicates), 4 jobs (all edge sets); 5..12 jobs random; '
              'Go map order varied by repetition only; a hang is detected by a 20 s watchdog'),
+    'C19': dict(
+        category='model_checking', design_ref='5 (C19), 3.3 Matrix',
+        technique='TLA+ spec Matrix.tla (Equals/isYAMLValueSubset/duplicate and exclude procedures vs. declarative '
+                  'StructEq/Matches/Candidates) checked by TLC; every matrix of the state space rendered to YAML in '
+                  'permuted variants and replayed into the real linter, diagnostics compared with the predicted set',
+        text='TLC shows the procedures exact, StructEq an equivalence and the verdicts order-insensitive on the bounded '
+             'universe; the real parser + RuleMatrix are bound to the model on the complete set of generated matrices '
+             '(two permutation variants each), comparing the exact set of diagnostics by value identity.',
+        note='universe: 17 raw values of depth <= 2, one row of <= 3 values, one include and one exclude combination '
+             '(plus expression rows/sections/elements); YAML rendering in flow style; positions map diagnostics to values'),
 }
 
 REASON_NOT_YET = 'check not built yet in this revision of /verif (planned, see DESIGN.md section 5); not claimed'
